@@ -12,6 +12,7 @@ mod c11;
 mod c12;
 mod c14;
 mod c15;
+mod c16;
 mod c17;
 mod modgen;
 mod refgraph;
@@ -50,6 +51,7 @@ fn main() {
                 "C13" => c13::run(&args, &mut rec),
                 "C14" => c14::run(&args, &mut rec),
                 "C15" => c15::run(&args, &mut rec),
+                "C16" => c16::run(&args, &mut rec),
                 "C17" => c17::run(&args, &mut rec),
                 "smoke" => smoke::run(&args, &mut rec),
                 "load" => {
